@@ -578,15 +578,53 @@ def _process_internal_events_without_default_matchers(
                     # Create instance as a child of the activated reference flow
                     event.arguments["source_flow_instance_uid"] = started_instance.uid
 
-                add_new_flow_instance(
-                    state,
-                    create_flow_instance(
+                try:
+                    new_flow_instance = create_flow_instance(
                         state.flow_configs[flow_id],
                         event.arguments["flow_instance_uid"],
                         event.arguments["flow_hierarchy_position"],
                         event.arguments,
-                    ),
-                )
+                    )
+                except Exception as e:
+                    # E.g. an error in the expression of a parameter default: the flow
+                    # fails before it exists, which the flow that waits for it must see
+                    log.warning(
+                        "Flow '%s' could not be created due to Colang runtime exception: %s",
+                        flow_id,
+                        e,
+                        exc_info=True,
+                    )
+                    _push_internal_event(
+                        state,
+                        Event(
+                            name="ColangError",
+                            arguments={"type": str(type(e).__name__), "error": str(e)},
+                        ),
+                    )
+                    _push_internal_event(
+                        state,
+                        InternalEvent(
+                            name=InternalEvents.FLOW_FAILED,
+                            arguments={
+                                **{
+                                    key: value
+                                    for key, value in event.arguments.items()
+                                    if key
+                                    not in (
+                                        "source_head_uid",
+                                        "flow_hierarchy_position",
+                                        "activated",
+                                    )
+                                },
+                                "source_flow_instance_uid": event.arguments[
+                                    "flow_instance_uid"
+                                ],
+                            },
+                            matching_scores=event.matching_scores,
+                        ),
+                    )
+                    return handled_event_loops
+                add_new_flow_instance(state, new_flow_instance)
 
     elif event.name == InternalEvents.FINISH_FLOW:
         if "flow_instance_uid" in event.arguments:
@@ -776,7 +814,34 @@ def _handle_event_matching(
             and event.arguments["flow_id"] == flow_state.flow_id
             and head.position == 0
         ):
-            _start_flow(state, flow_state, event.arguments)
+            try:
+                _start_flow(state, flow_state, event.arguments)
+            except Exception as e:
+                # The flow cannot be started with these arguments: it fails (and with it
+                # the flow that waits for it to start), everything else goes on
+                log.warning(
+                    "Flow '%s' could not be started due to Colang runtime exception: %s",
+                    flow_state.flow_id,
+                    e,
+                    exc_info=True,
+                )
+                _push_internal_event(
+                    state,
+                    Event(
+                        name="ColangError",
+                        arguments={"type": str(type(e).__name__), "error": str(e)},
+                    ),
+                )
+                # The failure event has to carry the (positional) arguments of the start
+                # request, such that the flow that waits for this start sees it fail
+                flow_state.arguments.update(
+                    {
+                        key: value
+                        for key, value in event.arguments.items()
+                        if key.startswith("$")
+                    }
+                )
+                _abort_flow(state, flow_state, head.matching_scores)
         elif event.name == InternalEvents.FLOW_STARTED:
             # Add started flow to active scopes
             # TODO: Make this independent from matching to FlowStarted event since otherwise it could be added elsewhere
